@@ -100,18 +100,29 @@ def ctor(kind):
 
 
 # ---- integration: the number of solutions is data dependent ------------------------------
-def integ(kind, N, overlapping=False):
+def integ(kind, N, overlapping=False, via_match=False):
     def h(ctx):
         n = ctx.choice("n", N + 1)
-        objs = [P(ctx.fresh_int("a%d" % i)) for i in range(n)]
+        if via_match:
+            from . import c11_match as C11
+            from krrood.entity_query_language.match import entity_matching
+
+            C11.reset()
+            objs = [C11.MP(a=ctx.fresh_int("a%d" % i)) for i in range(n)]
+        else:
+            objs = [P(ctx.fresh_int("a%d" % i)) for i in range(n)]
         k = ctx.fresh_int("k")
         lo = ctx.fresh_int("lo", 0)
         hi = ctx.fresh_int("hi", 0)
         if kind == "range":
             ctx.assume(hi >= lo)
         c, lower, upper = make_constraint(kind, lo, hi)
-        x = let(P, objs, name="x")
-        q = an(entity(x, x.a > k), quantification=c)
+        if via_match:
+            # the query written as a match pattern (a == k instead of a > k)
+            q = an(entity_matching(C11.MP, objs)(a=k), quantification=c)
+        else:
+            x = let(P, objs, name="x")
+            q = an(entity(x, x.a > k), quantification=c)
         def advance(it, got):
             """one step; returns None while running, else the way the evaluation ended"""
             try:
@@ -141,7 +152,7 @@ def integ(kind, N, overlapping=False):
             runs = [("first:", gots[0], ends[0]), ("second:", gots[1], ends[1])]
         ctx.observe(n, [(g, e) for _, g, e in runs])
         ctx.note("nonempty", any(g for _, g, e in runs))
-        sat = [o.a > k for o in objs]
+        sat = [EQ(o.a, k) if via_match else (o.a > k) for o in objs]
         count = SUM(B2I(s) for s in sat)
         greater, less = spec(count, lower, upper, True)
         v = {}
@@ -170,7 +181,7 @@ class FalsyP(P):
         return False
 
 
-def the_case(N, falsy=False, value_eq=False):
+def the_case(N, falsy=False, value_eq=False, again=False):
     def h(ctx):
         n = ctx.choice("n", N + 1)
         if value_eq:
@@ -191,13 +202,31 @@ def the_case(N, falsy=False, value_eq=False):
             exc = "multiple"
         ctx.observe(n, got, exc)
         ctx.note("nonempty", got is not None)
-        sat = [o.a > k for o in objs]
-        count = SUM(B2I(s) for s in sat)
-        if exc == "none":
-            return {"outcome": count == 0}
-        if exc == "multiple":
-            return {"outcome": count >= 2}
-        return {"outcome": AND(count == 1, sat[got] if got >= 0 else False)}
+
+        def judge(got, exc):
+            sat = [o.a > k for o in objs]
+            count = SUM(B2I(s) for s in sat)
+            if exc == "none":
+                return count == 0
+            if exc == "multiple":
+                return count >= 2
+            return AND(count == 1, sat[got] if got >= 0 else False)
+
+        v = {"outcome": judge(got, exc)}
+        if again:
+            # the same query object evaluated again after the data changed: the solutions are counted anew
+            for i, o in enumerate(objs):
+                o.a = ctx.fresh_int("a%d'" % i)
+            got2, exc2 = None, None
+            try:
+                got2 = index_of(objs, q.evaluate())
+            except NoSolutionFound:
+                exc2 = "none"
+            except MultipleSolutionFound:
+                exc2 = "multiple"
+            ctx.observe("again", got2, exc2)
+            v["outcome-when-evaluated-again-after-the-data-changed"] = judge(got2, exc2)
+        return v
 
     return h
 
@@ -212,6 +241,9 @@ def cases(tier, seed):
         M_ = 3 if tier == "quick" else 5
         cs.append(Case("an:%s|two overlapping evaluations|N<=%d" % (k, M_), integ(k, M_, overlapping=True), key="an:%s|overlapping" % k, reset=eql_reset, timeout=600, max_paths=200000, meta=dict(N=M_)))
     cs.append(Case("the|N<=%d" % N, the_case(N), key="the", reset=eql_reset, timeout=600, meta=dict(N=N)))
+    cs.append(Case("the|evaluated again after the data changed|N<=3", the_case(3, again=True), key="the|again", reset=eql_reset, timeout=600, meta=dict(N=3)))
+    for k in ("atleast", "atmost", "exactly"):
+        cs.append(Case("an:%s|written as a match pattern|N<=3" % k, integ(k, 3, via_match=True), key="an:%s|match" % k, reset=eql_reset, timeout=600, max_paths=200000, meta=dict(N=3)))
     cs.append(Case("the|value-equal domain objects|N<=3", the_case(3, value_eq=True), key="the|value-eq", reset=eql_reset, timeout=600, meta=dict(N=3)))
     cs.append(Case("the|some elements are falsy objects|N<=3", the_case(3, falsy=True), key="the|falsy", reset=eql_reset, timeout=600, meta=dict(N=3)))
     return cs
